@@ -10,8 +10,9 @@ import matrix_common as mx
 META = dict(
     category="model_checking",
     technique="TLA+ authorisation matrices (Auth.tla) enumerated by TLC; every cell executed on the real handlers / wasm dispatcher; outcomes judged by a TLC trace spec",
-    text="Auth.tla states who may succeed: for each of the 26 position messages (vault, locker, lend, borrow, order, farm, limit bid) x signer in "
-         "{owner, another funded user with comparable positions, a module account}, and for the 20 custom contract messages x chain id x sender "
+    text="Auth.tla states who may succeed: for each of the 26 position messages (vault, locker, lend, borrow, order, farm, limit bid) x holder of the named "
+         "position in {owner, other, risk} x signer in {every fixture account, a module account} x amount in {small, exactly the position's whole "
+         "balance, more} x named pair/app in {home pair, another pair with colliding order ids, a second app with colliding ids}, and for the 20 custom contract messages x chain id x sender "
          "(designated contract 0/1 of the network, of the other network, unrelated) plus MsgKillSwitch x sender. TLC enumerates the cells (bounded, "
          "exhaustive for the tables) and checks the tables and the guards-as-coded against the property; the harness executes every cell on the real "
          "code from a fresh fixture and from seeded non-fresh states, recording result, full store digest before/after and the owner's position/balance "
@@ -28,7 +29,8 @@ def run(c):
     c.judge(dict(fails=[tuple(x) for x in res["fails"]]), logf)
     st = res["stats"]
     if not c.violations:   # a violation on real-code states stands on its own; vacuity only matters for a clean result
-        mx.need(st, ["ownForeign", "ownSignerKeyed", "ownOwnerOk", "privGuarded", "privAccepted", "privElsewhere", "killRejected", "killAccepted"])
+        mx.need(st, ["ownForeign", "ownSignerKeyed", "ownOwnerOk", "privGuarded", "privAccepted", "privElsewhere", "killRejected", "killAccepted",
+                     "ownForeignWhole", "ownForeignOver", "ownOtherScope", "ownScopeWitness"])
         mx.need_eq(st, [("ownRowsWitnessed", "ownRows"), ("variantsWitnessed", "variants")])
     c.samples = mx.samples(logf, ("Own", "Priv", "Kill"))
     return c.finish("model_checking", dict(
